@@ -199,14 +199,23 @@ def build_harness(release=False):
     return os.path.join(BUILD, "target", "release" if release else "debug", "hv")
 
 
-def run_impl(hv, cases_path, timeout=3000):
-    rc, out = sh([hv, "run", cases_path], timeout=timeout)
-    if rc:
-        raise BuildError("harness-run", "exit %d\n%s" % (rc, out[-3000:]))
-    return out.splitlines()
+class ImplCrash(Exception):
+    def __init__(self, index, rc, tail, lines):
+        super().__init__("implementation crashed on case %d (exit status %s)" % (index, rc))
+        self.index, self.rc, self.tail, self.lines = index, rc, tail, lines
 
 
-def run_model(cases_path, timeout=3000):
+def run_impl(hv, cases_path, timeout=900):
+    """run the harness; a crash (signal, abort, non-zero exit) is attributed to the first case without output"""
+    p = subprocess.run([hv, "run", cases_path], env=ENV, stdout=subprocess.PIPE, stderr=subprocess.PIPE,
+                       timeout=timeout, text=True, errors="replace")
+    lines = p.stdout.splitlines()
+    if p.returncode:
+        raise ImplCrash(len(lines), p.returncode, p.stderr[-1500:], lines)
+    return lines
+
+
+def run_model(cases_path, timeout=900):
     with open(cases_path) as f:
         p = subprocess.run([os.path.join(BUILD, "runner", "runner")], stdin=f, stdout=subprocess.PIPE,
                            stderr=subprocess.STDOUT, text=True, timeout=timeout)
@@ -220,7 +229,7 @@ def vm_crosscheck(pid, cases, model_lines, sample=24, seed=0):
     rnd = random.Random(seed)
     idx = list(range(len(cases)))
     rnd.shuffle(idx)
-    idx = [i for i in idx[:sample] if "OVERFLOW" not in model_lines[i]]
+    idx = [i for i in idx if "OVERFLOW" not in model_lines[i] and len(cases[i]) + len(model_lines[i].split()) < 6000][:sample]
     if not idx:
         return 0, None
     d = os.path.join(BUILD, "audit")
@@ -234,12 +243,10 @@ def vm_crosscheck(pid, cases, model_lines, sample=24, seed=0):
         w.write("From HecsV Require Import Model.Run.\n")
         w.write("Fixpoint leq (a b : list N) : bool := match a, b with [] , [] => true | x :: a', y :: b' => "
                 "andb (N.eqb x y) (leq a' b') | _, _ => false end.\n")
-        w.write("Definition cases : list (list N * list N) := [\n")
-        w.write(";\n".join("(%s, %s)" % (lst(cases[i]), lst(model_lines[i].split())) for i in idx))
-        w.write("].\n")
-        w.write("Eval vm_compute in (forallb (fun c => leq (run_case (fst c)) (snd c)) cases).\n")
+        for i in idx:
+            w.write("Eval vm_compute in (leq (run_case %s) %s).\n" % (lst(cases[i]), lst(model_lines[i].split())))
     rc, out = sh(["coqc", "-Q", COQ, "HecsV", f], cwd=d, timeout=1800)
-    if rc or "= true" not in out:
+    if rc or out.count("= true") != len(idx):
         return len(idx), "vm_compute evaluation of run_case disagrees with the extracted OCaml runner:\n" + out[-1500:]
     return len(idx), None
 
